@@ -9,18 +9,18 @@ set_option linter.unusedSimpArgs false
 def TolM {α : Type} (f : PS → Option (α × PS)) (st : PS) (r : α × PS) : Prop :=
   st.elen ≤ r.2.elen ∧ (f st = some r ∨ st.elen < r.2.elen)
 
-/-- closes one leaf: split every induction-hypothesis disjunction; a branch with a recorded error is closed by
-    arithmetic, the error-free branch by unfolding the tolerant function once and rewriting with the facts -/
+/-- closes one leaf (all induction-hypothesis disjunctions are already split): a branch with a recorded error
+    is closed by arithmetic, the error-free branch by unfolding the tolerant function once and rewriting -/
 syntax "tol_close " ident : tactic
 macro_rules
   | `(tactic| tol_close $f:ident) => `(tactic| (
-      have hfp := @elen_parseFunctionParameters
       simp only [elen_next, elen_push, elen_pop, elen_addError, elen_addErrorAt, elen_set, elen_setPrec, elen_setTrace,
         elen_expectToken, elen_expectSemi] at *
-      repeat' (obtain ⟨_, _ | _⟩ := ‹_ ≤ _ ∧ (_ ∨ _)›)
-      all_goals first
-        | (refine ⟨by simp_all [expErr, semiErr] <;> omega, Or.inr (by simp_all [expErr, semiErr] <;> omega)⟩)
-        | (refine ⟨by simp_all [expErr, semiErr] <;> omega, Or.inl ?_⟩; rw [$f:ident]; simp_all [expErr, semiErr, tol_expectSemi_of_ok])))
+      first
+        | (refine ⟨?_, Or.inr ?_⟩ <;> first | omega | (simp_all [expErr, semiErr] <;> omega))
+        | (refine ⟨?_, Or.inl ?_⟩
+           · first | omega | (simp_all [expErr, semiErr] <;> omega)
+           · rw [$f:ident]; (simp_all [expErr, semiErr, tol_expectSemi_of_ok]) <;> (intros; first | omega | (simp_all <;> omega)))))
 
 set_option maxHeartbeats 3200000 in
 theorem tol_mutual (cfg : PCfg) :
@@ -75,7 +75,8 @@ theorem tol_mutual (cfg : PCfg) :
     replace ih_pS := curry2 ih_pS; replace ih_bS := curry1 ih_bS
     dsimp only [TolM] at ih_pS ih_bS ⊢
     obtain ⟨x, st'⟩ := r
-    pdecompW h [ih_pS, ih_bS]
+    pdecompD h [ih_pS, ih_bS, tol_parseFunctionParameters]
+    all_goals clear ih_pS ih_bS
     all_goals tol_close parseStatementI
   · -- baseParseStatement
     intro f1 f2 f3 f4 f5 f6 f7 f8 ih_f1 ih_f2 ih_f3 ih_f4 ih_f5 ih_f6 ih_f7 ih_f8  st r h
@@ -96,140 +97,168 @@ theorem tol_mutual (cfg : PCfg) :
     replace ih_pE := curry3 ih_pE
     dsimp only [TolM] at ih_pE ⊢
     obtain ⟨x, st'⟩ := r
-    pdecompW h [ih_pE]
+    pdecompD h [ih_pE, tol_parseFunctionParameters]
+    all_goals clear ih_pE
     all_goals tol_close parseExpressionStatement
   · -- parseExpressionI
     intro pE pR pP ih_pE ih_pR ih_pP is prec st r h
     replace ih_pE := curry3 ih_pE; replace ih_pR := curry3 ih_pR; replace ih_pP := curry1 ih_pP
     dsimp only [TolM] at ih_pE ih_pR ih_pP ⊢
     obtain ⟨x, st'⟩ := r
-    pdecompW h [ih_pE, ih_pR, ih_pP]
+    pdecompD h [ih_pE, ih_pR, ih_pP, tol_parseFunctionParameters]
+    all_goals clear ih_pE ih_pR ih_pP
     all_goals tol_close parseExpressionI
   · -- parseRemaining
     intro pR pI ih_pR ih_pI left prec st r h
     replace ih_pR := curry3 ih_pR; replace ih_pI := curry2 ih_pI
     dsimp only [TolM] at ih_pR ih_pI ⊢
     obtain ⟨x, st'⟩ := r
-    pdecompW h [ih_pR, ih_pI]
-    all_goals tol_close parseRemaining
+    pdecompD h [ih_pR, ih_pI, tol_parseFunctionParameters]
+    all_goals clear ih_pR ih_pI
+    all_goals (simp only [elen_next] at *)
+    all_goals first
+      | (refine ⟨?_, Or.inr ?_⟩ <;> omega)
+      | (refine ⟨?_, Or.inl ?_⟩
+         · omega
+         · rw [parseRemaining]
+           simp only [tol_lt_peekPrec, tol_smart, strict_smart] at *
+           simp only [*, ↓reduceIte]
+           try simp_all)
   · -- parseInfixExpression
     intro pE pL ih_pE ih_pL left st r h
     replace ih_pE := curry3 ih_pE; replace ih_pL := curry2 ih_pL
     dsimp only [TolM] at ih_pE ih_pL ⊢
     obtain ⟨x, st'⟩ := r
-    pdecompW h [ih_pE, ih_pL]
+    pdecompD h [ih_pE, ih_pL, tol_parseFunctionParameters]
+    all_goals clear ih_pE ih_pL
     all_goals tol_close parseInfixExpression
   · -- parseExpressionList
     intro pE eL ih_pE ih_eL endTy st r h
     replace ih_pE := curry3 ih_pE; replace ih_eL := curry2 ih_eL
     dsimp only [TolM] at ih_pE ih_eL ⊢
     obtain ⟨x, st'⟩ := r
-    pdecompW h [ih_pE, ih_eL]
+    pdecompD h [ih_pE, ih_eL, tol_parseFunctionParameters]
+    all_goals clear ih_pE ih_eL
     all_goals tol_close parseExpressionList
   · -- exprListLoop
     intro pE eL ih_pE ih_eL acc st r h
     replace ih_pE := curry3 ih_pE; replace ih_eL := curry2 ih_eL
     dsimp only [TolM] at ih_pE ih_eL ⊢
     obtain ⟨x, st'⟩ := r
-    pdecompW h [ih_pE, ih_eL]
+    pdecompD h [ih_pE, ih_eL, tol_parseFunctionParameters]
+    all_goals clear ih_pE ih_eL
     all_goals tol_close exprListLoop
   · -- parsePrefixExpression
     intro pE pL pFE pO ih_pE ih_pL ih_pFE ih_pO  st r h
     replace ih_pE := curry3 ih_pE; replace ih_pL := curry2 ih_pL; replace ih_pFE := curry1 ih_pFE; replace ih_pO := curry1 ih_pO
     dsimp only [TolM] at ih_pE ih_pL ih_pFE ih_pO ⊢
     obtain ⟨x, st'⟩ := r
-    pdecompW h [ih_pE, ih_pL, ih_pFE, ih_pO]
+    pdecompD h [ih_pE, ih_pL, ih_pFE, ih_pO, tol_parseFunctionParameters]
+    all_goals clear ih_pE ih_pL ih_pFE ih_pO
     all_goals tol_close parsePrefixExpression
   · -- parseFunctionExpression
     intro pB ih_pB  st r h
     replace ih_pB := curry1 ih_pB
     dsimp only [TolM] at ih_pB ⊢
     obtain ⟨x, st'⟩ := r
-    pdecompW h [ih_pB]
+    pdecompD h [ih_pB, tol_parseFunctionParameters]
+    all_goals clear ih_pB
     all_goals tol_close parseFunctionExpression
   · -- parseBlockStatement
     intro bL ih_bL  st r h
     replace ih_bL := curry2 ih_bL
     dsimp only [TolM] at ih_bL ⊢
     obtain ⟨x, st'⟩ := r
-    pdecompW h [ih_bL]
+    pdecompD h [ih_bL, tol_parseFunctionParameters]
+    all_goals clear ih_bL
     all_goals tol_close parseBlockStatement
   · -- blockLoop
     intro pS bL ih_pS ih_bL acc st r h
     replace ih_pS := curry2 ih_pS; replace ih_bL := curry2 ih_bL
     dsimp only [TolM] at ih_pS ih_bL ⊢
     obtain ⟨x, st'⟩ := r
-    pdecompW h [ih_pS, ih_bL]
+    pdecompD h [ih_pS, ih_bL, tol_parseFunctionParameters]
+    all_goals clear ih_pS ih_bL
     all_goals tol_close blockLoop
   · -- parseObjectLiteral
     intro oL ih_oL  st r h
     replace ih_oL := curry2 ih_oL
     dsimp only [TolM] at ih_oL ⊢
     obtain ⟨x, st'⟩ := r
-    pdecompW h [ih_oL]
+    pdecompD h [ih_oL, tol_parseFunctionParameters]
+    all_goals clear ih_oL
     all_goals tol_close parseObjectLiteral
   · -- objectLoop
     intro pE oL ih_pE ih_oL acc st r h
     replace ih_pE := curry3 ih_pE; replace ih_oL := curry2 ih_oL
     dsimp only [TolM] at ih_pE ih_oL ⊢
     obtain ⟨x, st'⟩ := r
-    pdecompW h [ih_pE, ih_oL]
+    pdecompD h [ih_pE, ih_oL, tol_parseFunctionParameters]
+    all_goals clear ih_pE ih_oL
     all_goals tol_close objectLoop
   · -- parseForStatement
     intro pS pE pFI ih_pS ih_pE ih_pFI  st r h
     replace ih_pS := curry2 ih_pS; replace ih_pE := curry3 ih_pE; replace ih_pFI := curry1 ih_pFI
     dsimp only [TolM] at ih_pS ih_pE ih_pFI ⊢
     obtain ⟨x, st'⟩ := r
-    pdecompW h [ih_pS, ih_pE, ih_pFI]
+    pdecompD h [ih_pS, ih_pE, ih_pFI, tol_parseFunctionParameters]
+    all_goals clear ih_pS ih_pE ih_pFI
     all_goals tol_close parseForStatement
   · -- parseForInit
     intro pE pLE ih_pE ih_pLE  st r h
     replace ih_pE := curry3 ih_pE; replace ih_pLE := curry1 ih_pLE
     dsimp only [TolM] at ih_pE ih_pLE ⊢
     obtain ⟨x, st'⟩ := r
-    pdecompW h [ih_pE, ih_pLE]
+    pdecompD h [ih_pE, ih_pLE, tol_parseFunctionParameters]
+    all_goals clear ih_pE ih_pLE
     all_goals tol_close parseForInit
   · -- parseLetExpression
     intro pE ih_pE  st r h
     replace ih_pE := curry3 ih_pE
     dsimp only [TolM] at ih_pE ⊢
     obtain ⟨x, st'⟩ := r
-    pdecompW h [ih_pE]
+    pdecompD h [ih_pE, tol_parseFunctionParameters]
+    all_goals clear ih_pE
     all_goals tol_close parseLetExpression
   · -- parseWhileStatement
     intro pS pE ih_pS ih_pE  st r h
     replace ih_pS := curry2 ih_pS; replace ih_pE := curry3 ih_pE
     dsimp only [TolM] at ih_pS ih_pE ⊢
     obtain ⟨x, st'⟩ := r
-    pdecompW h [ih_pS, ih_pE]
+    pdecompD h [ih_pS, ih_pE, tol_parseFunctionParameters]
+    all_goals clear ih_pS ih_pE
     all_goals tol_close parseWhileStatement
   · -- parseIfStatement
     intro pS pE ih_pS ih_pE  st r h
     replace ih_pS := curry2 ih_pS; replace ih_pE := curry3 ih_pE
     dsimp only [TolM] at ih_pS ih_pE ⊢
     obtain ⟨x, st'⟩ := r
-    pdecompW h [ih_pS, ih_pE]
+    pdecompD h [ih_pS, ih_pE, tol_parseFunctionParameters]
+    all_goals clear ih_pS ih_pE
     all_goals tol_close parseIfStatement
   · -- parseReturnStatement
     intro pE ih_pE  st r h
     replace ih_pE := curry3 ih_pE
     dsimp only [TolM] at ih_pE ⊢
     obtain ⟨x, st'⟩ := r
-    pdecompW h [ih_pE]
+    pdecompD h [ih_pE, tol_parseFunctionParameters]
+    all_goals clear ih_pE
     all_goals tol_close parseReturnStatement
   · -- parseFunctionStatement
     intro pB ih_pB  st r h
     replace ih_pB := curry1 ih_pB
     dsimp only [TolM] at ih_pB ⊢
     obtain ⟨x, st'⟩ := r
-    pdecompW h [ih_pB]
+    pdecompD h [ih_pB, tol_parseFunctionParameters]
+    all_goals clear ih_pB
     all_goals tol_close parseFunctionStatement
   · -- parseLetStatement
     intro pE ih_pE  st r h
     replace ih_pE := curry3 ih_pE
     dsimp only [TolM] at ih_pE ⊢
     obtain ⟨x, st'⟩ := r
-    pdecompW h [ih_pE]
+    pdecompD h [ih_pE, tol_parseFunctionParameters]
+    all_goals clear ih_pE
     all_goals tol_close parseLetStatement
 
 end Xjs
